@@ -82,12 +82,12 @@ def check(prog, ctx):
     extra = [m for m in seen if m not in METHODS_1D]
     ctx.decide('C13.a', 'Integrate:methods', f1, not missing and not extra, 'all six method names are dispatched for both orientations',
                'method table differs: missing %s, unexpected %s' % (missing, extra))
-    helper_discipline(prog, ctx)
-    nested(prog, ctx)
-    spherical(prog, ctx)
+    ctx.sub('helper_discipline', helper_discipline, prog, ctx)
+    ctx.sub('nested', nested, prog, ctx)
+    ctx.sub('spherical', spherical, prog, ctx)
     from .C14 import layout as _l   # front ends: shared rule with C14.c
-    front_ends(prog, ctx)
-    statics(prog, ctx)
+    ctx.sub('front_ends', front_ends, prog, ctx)
+    ctx.sub('statics', statics, prog, ctx)
 
 
 def helper_discipline(prog, ctx):
@@ -349,23 +349,7 @@ def statics(prog, ctx):
     for fn in prog.repo_functions():
         if fn.name not in names or not fn.q.startswith(L):
             continue
-        bad = []
-        for s in walk_stmts(fn.body):
-            if s['k'] == 'Decl':
-                for d in s['decls']:
-                    if d.get('static') and d.get('init') is not None:
-                        deps = [n['name'] for n in walk_expr(d['init']) if n.get('k') == 'Ref' and n.get('rk') in ('param', 'local')]
-                        if deps:
-                            bad.append('static %s initialised from %s' % (d['name'], sorted(set(deps))))
-                    elif d.get('static') and not d.get('const'):
-                        bad.append('mutable static %s' % d['name'])
-        # lambdas inside
-        for e in all_exprs(fn, into_lambdas=False):
-            if e.get('k') == 'Lambda':
-                for s in walk_stmts(e['fn']['body']):
-                    if s['k'] == 'Decl':
-                        for d in s['decls']:
-                            if d.get('static'):
-                                bad.append('static %s inside a lambda' % d['name'])
+        from ..state import history_dependence
+        bad = [d_ for n_, v_, d_ in history_dependence(prog, fn) if v_ == 'violated']
         ctx.decide('C13.e', '%s/%d:stateless' % (fn.name, len(fn.params)), fn, not bad, 'no persistent state',
                    'keeps state across calls: %s - the first call decides the value used by all later calls' % bad, witness={'statics': bad} if bad else None)
